@@ -3,7 +3,7 @@ import z3
 from pyvc import cli, inst, verify
 repo, world, ex, R = cli.load()
 ex.opaque = {k for k, s in R.specs.items() if getattr(s, "opaque", False)}
-key=[k for k in R.specs if sys.argv[1] in k][0]
+key=sorted([k for k in R.specs if sys.argv[1] in k], key=len)[0]
 pat=sys.argv[2]
 orig=verify.solve
 def dbg(hyps, goal, axioms=(), timeout_ms=10000, want_model=True):
